@@ -10,6 +10,9 @@ if ! git -C "$WT" apply "$PATCH"; then echo "patch does not apply"; git -C /repo
 cd "$(dirname "$0")/.."
 KVERIF_REPO="$WT" ./check "$ID" --tier "$TIER"; RC=$?
 echo "MUTANT $(basename "$PATCH") check=$ID rc=$RC"
+# scratch of this run (work/alt_<tag of the worktree path>): keep only evidence and replay files
+ALT=work/alt_$(python3 -c "import hashlib,sys;print(hashlib.md5(sys.argv[1].encode()).hexdigest()[:8])" "$WT")
+if [ -d "$ALT" ]; then find "$ALT" -mindepth 1 -maxdepth 1 ! -name evidence ! -name replays -exec rm -rf {} +; fi
 git -C /repo worktree remove --force "$WT"
 git -C /repo worktree prune
 exit $RC
